@@ -165,7 +165,7 @@ def arr_cmp(I, op, a, b):
     else:
         if a is None or isinstance(a, str): return False if isinstance(op, ast.Eq) else True
         shp = B.shape; elem = lambda *ix: fix(a, B.elem(*ix))
-    return I.new_arr(ArrVal(shp, elem, BoolS))
+    return I.new_arr(ArrVal(shp, elem, BoolS, ('cmp', type(op).__name__, a, b)))
 
 def arr_unop(kind, I, a):
     A = I.A(a)
